@@ -15,21 +15,21 @@ def main(run: Run) -> int:
     thorough = run.tier == "thorough"
     jobs = []
     # one-step histories: every call kind x string x every edit, then a final parse
-    for o1 in range(3):
+    for o1 in range(4):
         for s1 in range(2):
             jobs.append({"fn": "history", "globals": {"STEPS": 1, "MAXSIZE": 0, "NS": 2, "EDIT_SET": tuple(range(11)), "FIX": (o1, s1)}, "timeout": 300, "bound": "1 step (call x string x 11 in-place edits) + final parse (2 parsers x 2 strings)"})
     # two-step histories
     es2 = tuple(range(11)) if thorough else (0, 1, 4, 7, 8, 9)
-    for o1 in range(3):
+    for o1 in range(4):
         for s1 in range(2):
-            for o2 in range(3):
+            for o2 in range(4):
                 jobs.append({"fn": "history", "globals": {"STEPS": 2, "MAXSIZE": 0, "NS": 2, "EDIT_SET": es2, "FIX": (o1, s1, o2)}, "timeout": 600, "bound": f"2 steps (edits {es2}) + final parse"})
     if thorough:
-        for o1 in range(3):
+        for o1 in range(4):
             for s1 in range(2):
-                for o2 in range(3):
+                for o2 in range(4):
                     for s2 in range(2):
-                        for o3 in range(3):
+                        for o3 in range(4):
                             jobs.append({"fn": "history", "globals": {"STEPS": 3, "MAXSIZE": 0, "NS": 2, "EDIT_SET": (0, 2, 7, 10), "FIX": (o1, s1, o2, s2, o3)}, "timeout": 900, "bound": "3 steps (edits 0,2,7,10) + final parse"})
     for a in range(9):
         jobs.append({"fn": "eviction", "globals": {"MAXSIZE": 2, "FIXA": a // 3, "FIXB": a % 3}, "timeout": 600, "bound": "cache scaled down to maxsize=2, 3 distinct strings, 4 calls, edits {none, replace, delete} at depth 1/0: hits, misses and evictions"})
@@ -39,7 +39,7 @@ def main(run: Run) -> int:
         xh.default_verdict(run, r, feats, bound=j["bound"])
     if thorough:
         real_size_run(run)
-    run.bounds["histories"] = "calls: parse_condition_expression_to_tree, parse_ahb_expression_to_..., parse_expression_including_unresolved_subexpressions (as something a caller does); strings: 2 per parser incl. a nested time condition; edits: replace/delete/append child, rebind data, rebind children at depth 0 and 1"
+    run.bounds["histories"] = "calls: parse_condition_expression_to_tree, parse_ahb_expression_to_..., parse_expression_including_unresolved_subexpressions with default flags and without any expansion followed by a deep edit of its result (things a caller does); strings: 2 per parser incl. a nested time condition; edits: replace/delete/append child, rebind data, rebind children at depth 0 and 1"
     common_assumptions(run)
     run.assume("functools.lru_cache is reached through a proxy that calls the real C wrapper untraced (CrossHair would otherwise bypass every lru_cache); eviction is explored on the same real tree_copy and raw function composed with lru_cache(maxsize=2)")
     run.outside += ["histories longer than the stated number of steps", "the real maxsize=1024 is exercised by one concrete run in the thorough tier only"]
